@@ -3,25 +3,33 @@
 (* Bounded exhaustive check  CodeView => PropertyView  for TransTable      *)
 (* (C19), and the generator of operation sequences for direction B.        *)
 (*                                                                         *)
-(* Model: sizes 0 / 1 / 2 with 0 / 3 / 2 slots, keys 0..4 with             *)
-(* SlotOf(k, n) = k mod n (at 3 slots the pairs {0,3} and {1,4} collide,   *)
-(* at 2 slots {0,2,4} and {1,3}), depths 0..2, the three bounds, GenMod = 4 *)
-(* stored ages instead of 256 so that the wrap of the age is inside the    *)
-(* bound.  Spec (mc): all operation sequences up to MaxLen operations      *)
-(* (breadth first, CONSTRAINT on the level; `ret`, the label of the last   *)
-(* operation, is hidden by the VIEW so that states reached by different    *)
-(* operations coincide).  Checked against it:                              *)
+(* Model: sizes 0 / 1 / 2 with 0 / 3 / 2 slots, keys 0..NKeys-1 with       *)
+(* SlotOf(k, n) = k mod n (five keys: at 3 slots the pairs {0,3} and {1,4} *)
+(* collide, at 2 slots {0,2,4} and {1,3}), depths 0..2, the three bounds,  *)
+(* GenMod = 4 stored ages instead of 256 so that the wrap of the age is    *)
+(* inside the bound.  Spec: every interleaving of Insert / Probe /         *)
+(* NewSearch / Reset / Resize; `ret`, the label of the last operation, is  *)
+(* hidden by the VIEW so that states reached by different operations       *)
+(* coincide.  The search number is bounded by MaxSearch (NewSearch is not  *)
+(* offered beyond it), which makes the state space finite: with            *)
+(* MaxLen = 1000 operation sequences of every length are explored.  A      *)
+(* smaller MaxLen bounds the number of operations through TLC's level      *)
+(* (exact with one worker only).  Checked against it:                      *)
 (*    INVARIANT NoCrash            "keeps working for every advertised     *)
 (*                                  size and for any number of searches"   *)
-(*    PROPERTY  PVData             the PropertyView of every step that did *)
+(*    PROPERTY  PVHolds            the PropertyView of every step that did *)
 (*                                  not crash (action property)            *)
-(*    INVARIANTS CounterExact, FillIndicator, NoConfusion, ...             *)
+(*    INVARIANT Inv                counter exact, fill indicator, no       *)
+(*                                  confusion of keys, age = search mod G  *)
 (* The knobs  Sizes (does the zero-slot table exist: advertised minimum),  *)
-(* MaxSearch (how many searches without a reset) and Checked (overflow     *)
-(* panics or wraps) select the four configurations run by tools/p_c19.py;  *)
-(* the configuration file next to this module is the one in which the      *)
-(* CodeView satisfies the PropertyView: at least one slot, fewer than       *)
-(* GenMod searches between resets.                                         *)
+(* MaxSearch (how many searches without emptying) and Checked (overflow    *)
+(* panics or wraps) select the configurations run by tools/p_c19.py:       *)
+(*    holds          >= 1 slot, MaxSearch = GenMod-1          no error     *)
+(*    zero-slot      Sizes contains 0                         NoCrash      *)
+(*    overflow       Checked, MaxSearch unbounded             NoCrash      *)
+(*    aliasing       ~Checked, MaxSearch = GenMod+1           PVHolds      *)
+(*    only-aliasing  as aliasing, PVHoldsUpToAliasing         no error     *)
+(* The configuration file next to this module is `holds`.                  *)
 (*                                                                         *)
 (* GenSpec (-simulate): the specification chooses the operations itself    *)
 (* and prints per behaviour one line with the operations and the content   *)
@@ -30,6 +38,7 @@
 EXTENDS TransTable, TLC, Json, Reporting
 
 CONSTANTS
+    NKeys,       \* keys 0 .. NKeys-1
     Sizes,       \* size settings in play, subset of {0, 1, 2}
     Depths,      \* depths of inserted data
     Tags,        \* payloads of inserted data
@@ -39,7 +48,7 @@ CONSTANTS
 VARIABLES hist, done     \* gen mode only (constant in mc mode)
 mvars == <<slot, search, occupied, size, bulk, st, ret, hist, done>>
 
-MCKeys == 0..4
+MCKeys == 0..(NKeys - 1)
 MCN(sz) == CASE sz = 0 -> 0 [] sz = 1 -> 3 [] sz = 2 -> 2
 MCSlotOf(k, n) == k % n
 InitSize == 1
@@ -94,7 +103,26 @@ View == <<slot, search, occupied, size, bulk, st>>
 Bound == TLCGet("level") <= MaxLen
 
 \* PropertyView of the data, on every step that did not crash (the crash itself is NoCrash)
-PVData == [][st' = "ok" => PVStep]_vars
+PVHolds == [][st' = "ok" => PVData]_vars
+
+\* Diagnostic (configuration "only-aliasing"): the PropertyView with the one clause excused that a stored
+\* age of GenMod values cannot keep - an entry whose search number differs from the current one by a
+\* multiple of GenMod is treated as an entry of the current search.  If this holds where PVHolds fails,
+\* age aliasing is the only way the data clauses fail within the bound.
+Aliased(old, new) == old # None /\ old.search < new.search /\ (new.search - old.search) % GenMod = 0
+PVInsertUpToAliasing ==
+    LET n == N(size)
+        s == SlotOf(ret'.k, n)
+        old == slot[s]
+        new == Entry(ret'.k, ret'.d, search)
+    IN  IF n > 0 /\ Aliased(old, new)
+        THEN /\ search' = search /\ size' = size /\ bulk' = bulk /\ DOMAIN slot' = DOMAIN slot
+             /\ Pv(slot'[s]) \in (IF MustKeep([old EXCEPT !.search = new.search], new)
+                                  THEN {Pv(old)} ELSE {Pv(old), Pv(new)})
+             /\ \A t \in DOMAIN slot : t # s => Pv(slot'[t]) = Pv(slot[t])
+        ELSE PVInsert
+PVHoldsUpToAliasing ==
+    [][st' = "ok" => IF ret'.op = "insert" THEN PVInsertUpToAliasing ELSE PVData]_vars
 
 TypeOK ==
     /\ size \in Sizes \cup {InitSize}
